@@ -69,6 +69,9 @@ func NewRun(p *Prog, property, tier string) *Run {
 	}
 
 	run := &Run{P: p, Property: property, Tier: tier, Assume: map[string]bool{}, Extra: map[string]interface{}{}, seen: map[string]bool{}}
+	if len(p.Inlined) > 0 {
+		run.Extra["inlined_helpers"] = p.Inlined
+	}
 	if len(p.Renamed) > 0 {
 		run.Extra["canonicalised_renames"] = p.Renamed
 	}
